@@ -93,6 +93,8 @@ def register(w):
                requires=["mode == 'r' or mode == 'rb'"], raises={"OSError": True}, returns="either[obj:RFile,obj:TFile]", props=["C16", "C01"],
                note="binary mode (every handler reads archive members in binary mode except the text-mode title scan, which wraps the same stream)")
     register_cache(w)
+    register_wrapper(w)
+    register_delegation_ast(w)
     w.contract(Z + "iswritable", params={"selector": "str"}, modifies=[], raises={}, returns="bool", ensures=["result == False"], props=P,
                note="nothing is ever written into an archive (so DirHandler never tries to cache a listing inside it)")
 
@@ -117,3 +119,49 @@ def register_cache(w):
                props=["C11", "C16", "C01"],
                note="an unreadable, truncated or corrupt cache (any exception of shelve.open in read mode) leads to a rebuild from the archive; the only exception that can "
                     "escape is the OSError of stat()ing the archive itself")
+
+
+def register_wrapper(w):
+    """ZIPHandler is a thin wrapper: the handler chain is re-run on the archive's VFS for the same selector, and
+    every operation is delegated to the handler chosen there."""
+    DEL = ["self.selector.startswith('/')", "S.abs_root(%s)" % ROOT, "self.vfs.config is self.config",
+           "G.rootpath is None or G.rootpath == '' or G.rootpath == %s" % ROOT, "HM.rootpath is None or HM.rootpath == '' or HM.rootpath == %s" % ROOT]
+    w.contracts.pop((Z + "__init__", None), None)
+    w.contract(Z + "__init__", params={"config": "obj:Config", "chain": "obj:VFS_Real", "zipfilename": "str"}, modifies=["self.*"], raises={"Exception": True}, assumed=True,
+               ensures=["self.config is config", "self.chain is chain", "self.zipfilename == zipfilename"],
+               note="opens the archive through the parent VFS (chain.open(zipfilename), zipfilename a prefix of the filtered selector: ZIPHandler.canhandlerequest.ensures) "
+                    "and builds or loads the member index; zipfile.ZipFile may raise for a damaged archive", props=["C01", "C16"])
+    HMG = {"pygopherd/handlers/HandlerMultiplexer.py:handlers": "opt[list[class:AnyHandler]]", "pygopherd/handlers/HandlerMultiplexer.py:rootpath": "opt[str]"}
+    w.contract(ZH + "_makehandler", selfclass=["ZIPHandler"], globals=GROOT,
+               requires=["self.selector.startswith('/')", "S.abs_root(%s)" % ROOT, "self.vfs.config is self.config", "G.rootpath is None or G.rootpath == '' or G.rootpath == %s" % ROOT],
+               modifies=["self.handler", MROOT],
+               raises={"Exception": True},
+               ensures=["hasattr(self, 'handler')", "implies(not old(hasattr(self, 'handler')), self.handler.nofs or (S.secure(self.handler.selector) and self.handler.selector.startswith('/')))"],
+               at={"after~self.handler = HandlerMultiplexer.getHandler(": [("assert", "vfs.zipfilename == self.basename and vfs.chain is self.vfs and vfs.config is self.config")]},
+               opts={"must_hit": ["after~self.handler = HandlerMultiplexer.getHandler("]},
+               note="the inner handler is chosen by the ordinary chain (so the selector passes the filter again) on a VFSZip opened on exactly the archive path "
+                    "canhandlerequest found, chained to the wrapper's own file system", props=["C16", "C01"])
+
+
+def register_delegation_ast(w):
+    import ast
+
+    def delegation(world):
+        """ZIPHandler.prepare/isdir/getdirlist/write/getentry do nothing but (make the inner handler and) call the
+        method of the same name on it with the same arguments."""
+        bad = []
+        for m in ("prepare", "isdir", "getdirlist", "write", "getentry"):
+            fi = world.repo.get(ZH + m)
+            if fi is None:
+                bad.append("ZIPHandler.%s not found" % m)
+                continue
+            body = [st for st in fi.node.body if not (isinstance(st, ast.Expr) and isinstance(st.value, ast.Constant))]
+            texts = [ast.unparse(st) for st in body]
+            args = ", ".join(a.arg for a in fi.node.args.args[1:])
+            call = "self.handler.%s(%s)" % (m, args)
+            ok = texts in ([call], ["return " + call], ["self._makehandler()", call], ["self._makehandler()", "return " + call])
+            if not ok:
+                bad.append("ZIPHandler.%s is no longer a plain delegation: %s" % (m, texts))
+        return (not bad, bad or "five one-line delegations to the handler chosen on the archive")
+
+    w.astcheck("C16.ast.wrapper-delegates", ["C16"], delegation)
